@@ -202,8 +202,8 @@ func runC07(c *Ctx) {
 			})
 			ok1, p1 := Guarded(po.Blocks[0], r, passRE, nil)
 			ok2, p2 := Guarded(po.Blocks[0], r, passType, nil)
-			c.Check(ok1 && len(passRE) > 0, "R1", "parseOid:matches-pattern", p.InstrPos(r), "an oid is returned only when that same string matched the OID pattern", "parseOid can return an oid that did not pass the OID pattern: "+p1)
-			c.Check(ok2 && len(passType) > 0, "R1", "parseOid:sha256-tag", p.InstrPos(r), "an oid is returned only for the sha256 type tag", "parseOid can return an oid without the sha256 type tag: "+p2)
+			c.Check(ok1 && nonVacuous(passRE), "R1", "parseOid:matches-pattern", p.InstrPos(r), "an oid is returned only when that same string matched the OID pattern", "parseOid can return an oid that did not pass the OID pattern: "+p1)
+			c.Check(ok2 && nonVacuous(passType), "R1", "parseOid:sha256-tag", p.InstrPos(r), "an oid is returned only for the sha256 type tag", "parseOid can return an oid without the sha256 type tag: "+p2)
 		}
 	}
 	c07DecodeKV(c)
@@ -258,7 +258,7 @@ func c07DecodeKV(c *Ctx) {
 				return false, false
 			})
 			ok, path := Guarded(fn.Blocks[0], r, pass, nil)
-			c.Check(ok && len(pass) > 0, "R2", "decodeKV:version", p.InstrPos(r), "pointer returned only after the version was accepted", "a pointer can be returned without an accepted version line: "+path)
+			c.Check(ok && nonVacuous(pass), "R2", "decodeKV:version", p.InstrPos(r), "pointer returned only after the version was accepted", "a pointer can be returned without an accepted version line: "+path)
 		}
 		// oid
 		oc, idx, isRes := CallResult(oidArg)
@@ -267,7 +267,7 @@ func c07DecodeKV(c *Ctx) {
 		} else {
 			pass := errNilPass(fn, oc)
 			ok, path := Guarded(fn.Blocks[0], r, pass, nil)
-			c.Check(ok && len(pass) > 0, "R2", "decodeKV:oid", p.InstrPos(r), "pointer returned only after parseOid succeeded for the oid it carries", "a pointer can be returned although parseOid failed: "+path)
+			c.Check(ok && nonVacuous(pass), "R2", "decodeKV:oid", p.InstrPos(r), "pointer returned only after parseOid succeeded for the oid it carries", "a pointer can be returned although parseOid failed: "+path)
 		}
 		// size
 		sc, idx, isRes := CallResult(sizeArg)
@@ -297,8 +297,8 @@ func c07DecodeKV(c *Ctx) {
 			})
 			ok3, path3 := Guarded(fn.Blocks[0], r, passErr, nil)
 			ok4, path4 := Guarded(fn.Blocks[0], r, passNonNeg, nil)
-			c.Check(ok3 && len(passErr) > 0, "R2", "decodeKV:size-error", p.InstrPos(r), "pointer returned only when the size parsed without error", "a pointer can be returned although the size did not parse: "+path3)
-			c.Check(ok4 && len(passNonNeg) > 0, "R2", "decodeKV:size-nonnegative", p.InstrPos(r), "pointer returned only for size >= 0", "a pointer with a negative size can be returned: "+path4)
+			c.Check(ok3 && nonVacuous(passErr), "R2", "decodeKV:size-error", p.InstrPos(r), "pointer returned only when the size parsed without error", "a pointer can be returned although the size did not parse: "+path3)
+			c.Check(ok4 && nonVacuous(passNonNeg), "R2", "decodeKV:size-nonnegative", p.InstrPos(r), "pointer returned only for size >= 0", "a pointer with a negative size can be returned: "+path4)
 		}
 		// extensions: validated and sorted when present
 		val := findCall("lfs.validatePointerExtensions")
@@ -348,7 +348,7 @@ func c07DecodeKV(c *Ctx) {
 							if pc, idx, isRes := CallResult(el[0]); isRes && idx == 0 && CalleeName(pc.Common()) == "lfs.parsePointerExtension" {
 								pass := errNilPass(fn, pc)
 								g, _ := Guarded(fn.Blocks[0], in, pass, nil)
-								okp = g && len(pass) > 0
+								okp = g && nonVacuous(pass)
 							}
 						}
 						c.Check(okp, "R2", "decodeKV:extension-parsed", p.InstrPos(in), "only successfully parsed extensions are kept", "an extension is kept although parsePointerExtension failed (or was not called)")
@@ -445,7 +445,7 @@ func c07DecodeKV(c *Ctx) {
 				return false, false
 			})
 			ok, path := Guarded(vf.Blocks[0], r, pass, nil)
-			c.Check(ok && len(pass) > 0, "R2", "verifyVersion:alias-equality", p.InstrPos(r), "a version is accepted only when it equals a known alias exactly", "verifyVersion can accept a version that equals none of the known aliases: "+path)
+			c.Check(ok && nonVacuous(pass), "R2", "verifyVersion:alias-equality", p.InstrPos(r), "a version is accepted only when it equals a known alias exactly", "verifyVersion can accept a version that equals none of the known aliases: "+path)
 		}
 	}
 	aliases, apos, ok := stringSliceGlobal(p, "lfs", "v1Aliases")
@@ -493,7 +493,7 @@ func c07KeyOrder(c *Ctx) {
 	for _, b := range fn.Blocks {
 		for _, in := range b.Instrs {
 			if mu, ok := in.(*ssa.MapUpdate); ok {
-				if pass := keyEqExpectedEdges(p, fn, mu.Key); len(pass) > 0 {
+				if pass := keyEqExpectedEdges(p, fn, mu.Key); nonVacuous(pass) {
 					if l := LoopOf(Loops(fn), mu.Block()); l != nil {
 						if g, _ := Guarded(l.Body, mu, pass, nil); g {
 							store = mu
@@ -580,7 +580,7 @@ func c07KeyOrder(c *Ctx) {
 				return false, false
 			})
 			okx, pathx := Guarded(l.Body, mu, passExt, nil)
-			c.Check(okx && len(passExt) > 0, "R3", "extension-key-store", p.InstrPos(mu), "other keys are kept only when they match the extension key pattern", "a non-required key can be kept without matching the extension pattern: "+pathx)
+			c.Check(okx && nonVacuous(passExt), "R3", "extension-key-store", p.InstrPos(mu), "other keys are kept only when they match the extension key pattern", "a non-required key can be kept without matching the extension pattern: "+pathx)
 		}
 	}
 }
@@ -750,7 +750,7 @@ func emptyShortcutRule(c *Ctx, rule string) {
 			return false, false
 		})
 		ok, path := Guarded(fn.Blocks[0], ci, pass, nil)
-		c.Check(ok && len(pass) > 0, rule, "DecodeFrom:empty-only-for-zero-bytes", p.InstrPos(ci), "the empty pointer is returned only when zero bytes were read", "input that is not empty (e.g. whitespace only) can decode as the empty pointer: "+path)
+		c.Check(ok && nonVacuous(pass), rule, "DecodeFrom:empty-only-for-zero-bytes", p.InstrPos(ci), "the empty pointer is returned only when zero bytes were read", "input that is not empty (e.g. whitespace only) can decode as the empty pointer: "+path)
 	}
 	c.AtLeast(rule, "empty-pointer shortcut sites", n, 1)
 }
@@ -844,7 +844,7 @@ func c07Encoder(c *Ctx) {
 				return false, false
 			})
 			g, _ := Guarded(fn.Blocks[0], r, pass, nil)
-			okEmpty = g && len(pass) > 0
+			okEmpty = g && nonVacuous(pass)
 		}
 	}
 	c.Check(okEmpty, "R5", "Encoded:empty-iff-size-0", p.Pos(fn.Pos()), "the empty encoding is produced exactly for size 0", "Encoded does not return \"\" exactly when Size == 0")
@@ -1079,7 +1079,7 @@ func c07NoPanic(c *Ctx) {
 						}
 						return false, false
 					})
-					if len(pass) > 0 {
+					if nonVacuous(pass) {
 						loops := Loops(fn)
 						entry := fn.Blocks[0]
 						if l := LoopOf(loops, ia.Block()); l != nil {
